@@ -973,6 +973,13 @@ def check_one(ctx, kind, case, rep, o, info, inp):
                 ctx.property_failure("vam_cluster_operation_container", inp,
                                      f"cluster operation container in state {case['cluster']} differs from what the "
                                      "clustering manager supplied", norm(exp["op"]), got_op)
+            # the identifier in a leave indication is the identifier of the cluster the scenario joined (independent of what
+            # the manager supplies): 21 after a completed join, 18 / 19 after a cancelled / failed join
+            want_leave = {"leave_notify": 21, "leader_lost": 21, "join_cancelled": 18, "join_failed": 19}.get(case["cluster"])
+            li = (p.get("vruClusterOperationContainer") or {}).get("clusterLeaveInfo")
+            if want_leave is not None and li is not None and li.get("clusterId") != want_leave:
+                ctx.property_failure("vam_leave_cluster_id", inp, f"clusterLeaveInfo in state {case['cluster']} names another "
+                                     "cluster than the one the station had joined", want_leave, li.get("clusterId"))
             gi = p.get("vruClusterInformationContainer")
             if (gi is None) != (exp["info"] is None):
                 ctx.property_failure("vam_cluster_information_container", inp, "cluster information container presence",
